@@ -6,6 +6,7 @@ mod ev;
 mod exec;
 mod findings;
 mod gen;
+mod lines;
 mod minimise;
 mod monitors;
 mod node;
